@@ -14,7 +14,7 @@ pub const NACT: usize = 48;
 pub fn act(a: usize) -> (usize, usize, MZFlush) { (CHUNKS[a % 3], OUTS[(a / 3) % 4], FLUSHES[(a / 12) % 4]) }
 pub fn act_name(a: usize) -> String { format!("c{}o{}f{}", a % 3, (a / 3) % 4, (a / 12) % 4) }
 
-struct Runner<'a> { data: &'a [u8], limit: usize, c: CompressorOxide, ipos: usize, out: Vec<u8>, ended: bool, finishing: bool, dead: bool, calls: usize, trace: String }
+struct Runner<'a> { klines: Vec<String>, record: bool, data: &'a [u8], limit: usize, c: CompressorOxide, ipos: usize, out: Vec<u8>, ended: bool, finishing: bool, dead: bool, calls: usize, trace: String }
 
 impl<'a> Runner<'a> {
     fn step(&mut self, chunk_sel: usize, out_len: usize, flush: MZFlush, problems: &mut Vec<(String, String)>) -> bool {
@@ -31,7 +31,15 @@ impl<'a> Runner<'a> {
         let c = &mut self.c;
         let r = catch_unwind(AssertUnwindSafe(|| deflate(c, &data[ipos..ipos + chunk], &mut out, flush)));
         let r = match r { Ok(r) => r, Err(_) => { problems.push(("panic".into(), format!("panic in deflate() call #{}", calls))); return false; } };
-        let _ = self.c.verif_take_trace();
+        let tr = self.c.verif_take_trace();
+        if self.record {
+            // correspondence line for the Lean model of deflate(): the inner compress() calls as the engine script
+            let inner: Vec<&[u64; 8]> = tr.iter().filter(|e| e[0] == 2).collect();
+            let script: Vec<String> = inner.iter().map(|e| format!("{}:{}:{}", e[4] as i64, e[5], e[6])).collect();
+            let args: Vec<String> = inner.iter().map(|e| format!("{}:{}", e[2], e[3])).collect();
+            let code = match r.status { Ok(s) => s as i32, Err(e) => e as i32 };
+            self.klines.push(format!("DFL prevdone={} in={} out={} flush={} res={}:{}:{} script={} args={}", (snap_before.1 == TDEFLStatus::Done) as u8, chunk, out_len, flush as i32, code, r.bytes_consumed, r.bytes_written, if script.is_empty() { "-".into() } else { script.join(";") }, if args.is_empty() { "-".into() } else { args.join(";") }));
+        }
         self.trace.push_str(&format!("{}/{}/{:?}->{:?}:{}:{};", chunk, out_len, flush, r.status, r.bytes_consumed, r.bytes_written));
         if r.bytes_consumed > chunk || r.bytes_written > out_len { problems.push(("counts".into(), format!("call #{}: consumed {}/{} written {}/{}", calls, r.bytes_consumed, chunk, r.bytes_written, out_len))); return false; }
         self.ipos += r.bytes_consumed;
@@ -79,15 +87,15 @@ impl<'a> Runner<'a> {
     }
 }
 
-pub fn run_sequence(cfg: &Cfg, data: &[u8], actions: &[usize], seed: u64) -> (Vec<(String, String)>, Option<(Vec<u8>, usize, usize)>, String) {
+pub fn run_sequence(cfg: &Cfg, data: &[u8], actions: &[usize], seed: u64, record: bool) -> (Vec<(String, String)>, Option<(Vec<u8>, usize, usize)>, String, Vec<String>) {
     let mut problems = vec![];
-    let mut rn = Runner { data, limit: data.len(), c: cfg.make(), ipos: 0, out: vec![], ended: false, finishing: false, dead: false, calls: 0, trace: String::new() };
+    let mut rn = Runner { klines: vec![], record, data, limit: data.len(), c: cfg.make(), ipos: 0, out: vec![], ended: false, finishing: false, dead: false, calls: 0, trace: String::new() };
     let mut rng = crate::rng::Rng::new(seed);
     for &a in actions {
         let (c, o, f) = act(a);
-        if !rn.step(c, o, f, &mut problems) || !problems.is_empty() { return (problems, None, rn.trace); }
+        if !rn.step(c, o, f, &mut problems) || !problems.is_empty() { return (problems, None, rn.trace, rn.klines); }
     }
-    if rn.dead { return (problems, None, rn.trace); }
+    if rn.dead { return (problems, None, rn.trace, rn.klines); }
     // finish: repeating Finish must terminate
     let out_len = *rng.pick(&[1usize, 2, 7, 64, 1000, 200_000]);
     let budget = (data.len() * 2 + 2000) / out_len + 200;
@@ -95,7 +103,7 @@ pub fn run_sequence(cfg: &Cfg, data: &[u8], actions: &[usize], seed: u64) -> (Ve
     while !rn.ended {
         n += 1;
         if n > budget { problems.push(("finish".into(), format!("repeating Finish with {}-byte buffers did not end the stream within {} calls", out_len, budget))); break; }
-        if !rn.step(usize::MAX, out_len, MZFlush::Finish, &mut problems) || !problems.is_empty() { return (problems, None, rn.trace); }
+        if !rn.step(usize::MAX, out_len, MZFlush::Finish, &mut problems) || !problems.is_empty() { return (problems, None, rn.trace, rn.klines); }
     }
     // after the end
     if rn.ended && problems.is_empty() {
@@ -105,11 +113,13 @@ pub fn run_sequence(cfg: &Cfg, data: &[u8], actions: &[usize], seed: u64) -> (Ve
     }
     let consumed = rn.ipos;
     let limit = rn.limit;
-    (problems, if rn.ended { Some((rn.out, consumed, limit)) } else { None }, rn.trace)
+    let kl = std::mem::take(&mut rn.klines);
+    (problems, if rn.ended { Some((rn.out, consumed, limit)) } else { None }, rn.trace, kl)
 }
 
 fn one(ctx: &mut Ctx, cfg: &Cfg, data: &[u8], actions: &[usize], seed: u64, emit: bool) {
-    let (problems, fin, trace) = run_sequence(cfg, data, actions, seed);
+    let (problems, fin, trace, klines) = run_sequence(cfg, data, actions, seed, emit);
+    for (k, l) in klines.iter().enumerate() { let id = ctx.next_id + 1; ctx.line(&format!("{} id={} call={}", l, id, k)); }
     ctx.evals += 1; ctx.nontrivial.insert(fnv(data) ^ seed.wrapping_mul(31) ^ (actions.len() as u64) << 56 | 1);
     let acts: Vec<String> = actions.iter().map(|a| a.to_string()).collect();
     let replay = format!("DEFSEQ {} seed={} actions={} in={}", cfg.describe(), seed, if acts.is_empty() { "-".into() } else { acts.join(",") }, hex(data));
